@@ -1085,8 +1085,6 @@ class HttpPayloadParser:
                         chunk = chunk[pos + len(SEP) :]
                         if size == 0:  # eof marker
                             self._chunk = ChunkState.PARSE_TRAILERS
-                            if self._lax and chunk.startswith(b"\r"):
-                                chunk = chunk[1:]
                         else:
                             self._chunk = ChunkState.PARSE_CHUNKED_CHUNK
                             self._chunk_size = size
@@ -1125,6 +1123,7 @@ class HttpPayloadParser:
 
                 # toss the CRLF at the end of the chunk
                 if self._chunk == ChunkState.PARSE_CHUNKED_CHUNK_EOF:
+                    unparsed = chunk
                     if self._lax and chunk.startswith(b"\r"):
                         chunk = chunk[1:]
                     if chunk[: len(SEP)] == SEP:
@@ -1137,7 +1136,9 @@ class HttpPayloadParser:
                         set_exception(self.payload, exc)
                         raise exc
                     else:
-                        self._chunk_tail = chunk
+                        # Keep the CR skipped above: it is skipped again when
+                        # the rest arrives, and only one may be.
+                        self._chunk_tail = unparsed
                         self._paused = False
                         return PayloadState.PAYLOAD_NEEDS_INPUT, b""
 
